@@ -9,9 +9,12 @@ E1  TLC, exhaustive, on spec/future/Future.tla + WhenAll.tla: ThenAfterReady (th
     by the last callback or inline by a getter, empty and singleton inputs.
 E2  every transition of the then() cover graph is replayed in the real code under the controlled scheduler ...
 E3  ... and validated step by step by TLC (FutureTrace.tla: chain contents, count / winner / shared_ptr owners).
+E5  rounds of 20 000 then() on a not-yet-ready future: the 32-byte small-buffer pool must not grow after the first round
+    (every chain link is freed to the pool it was allocated from) - LinkPoolObs.tla.
 E4  seeded random + PCT schedules of the model programs and of random programs (then / when_all / when_any on every
     schedulable incl. the real pool and task sets), validated the same way.
 """
+import os
 import random
 
 import future_common as fc
@@ -40,7 +43,8 @@ def run(ctx):
 
     # E4 + E3 --------------------------------------------------------------------------------
     rng = random.Random(ctx.seed * 31 + 5)
-    fixedprogs = [fc.gen.MC[k] for k in ('then', 'then2', 'exc', 'wall', 'wall1', 'wany', 'wany1', 'wall0', 'wallt', 'wanyt')]
+    fixedprogs = [fc.gen.MC[k] for k in ('then', 'then2', 'exc', 'wall', 'wall1', 'wany', 'wany1', 'wall0', 'wallt', 'wanyt',
+                                         'wany1', 'wany1', 'wany')]     # (repeated: more schedules of the narrow when_any race)
     nq, npool = (60, 60) if thorough else (6, 6)
     progs_q = [fc.gen.random_program(rng, 'q') for _ in range(nq)]
     progs_p = [fc.gen.random_program(rng, 'pool') for _ in range(npool)]
@@ -53,4 +57,12 @@ def run(ctx):
                              'ImmediateInvoker', n=8 if thorough else 4, seed=ctx.seed + 12, pct=3, spurious=True, fixed=fixed)[0]
     if tr:
         ctx.sample_trace(tr, 10, skip=40)
+
+    # E5: chain links go back to the small-buffer pool they came from -------------------------
+    obs = os.path.join(ctx.work, 'linkpool.ndjson')
+    tot, _ = ctx.driver(exe, ['--out', obs, '--linkpool', 6 if thorough else 4, '--links', 20000], WHAT,
+                        label='then-chain links vs the 32-byte small-buffer pool')
+    ctx.validate(fc.SPEC, 'LinkPoolObs.tla', 'LinkPoolObs.cfg', obs, WHAT + ' (chain links are freed to their pool)',
+                 executions=tot.get('completed', 0), label='E5 link pool records')
+    ctx.sample_trace(obs, 4)
     ctx.assumptions += fc.ASSUME
